@@ -29,7 +29,8 @@ OPEN_STATEMENTS = [
     'NOT PROVED: the convergence order  ||circuit - exp(-iHt)|| = O(n_steps^-p), p = 1, 2, 4 for order 0, 1, 2 '
     '(Suzuki\'s theorem, real analysis, not in Mathlib).  Proved instead: its algebraic hypotheses (suzuki_condition[_real], '
     'suzuki_palindrome, suzuki_times_sum).  The harness only *tests* error ratios under step doubling, with generous margins',
-    'NOT PROVED: exactness for commuting pieces as a statement about matrix exponentials (checked numerically: oracle)',
+    'exact_when_commuting is proved for an abstract list of pairwise commuting generator matrices (Mathlib matrix exponential) and the '
+    'Model leaf times; that the generators emitted by the real step classes commute for a given Hamiltonian is an input (numerical oracle)',
     'NOT PROVED: controlled variants (identity on control 0, phase of the constant) — oracle only',
     'lsn_asym/sym_step_is_product_formula cover the linear swap network steps (real hopping part, density-density part, '
     'number operators: total coefficients per generator kind); the imaginary (oriented) hopping part, the mirrored order of the '
